@@ -459,6 +459,31 @@ def opRpc (j : Json) : Except String Json := do
     let impls := (S'.impls.drop S.impls.length).map fun i => Json.arr #[Json.str i.name, Json.str i.protocol, Json.str i.type]
     return Json.mkObj [("structs", Json.arr structs.toArray), ("enums", Json.arr enums.toArray), ("impls", Json.arr impls.toArray)]
 
+/-- pipelines over one `Result` (FcpModel/Glue.lean) -/
+def opGlue (j : Json) : Except String Json := do
+  let items ← j.getObjValAs? (Array Json) "items"
+  let outs ← items.mapM fun it => do
+    let st ← it.getObjValAs? (Array Json) "start"
+    let v ← (st[1]?.getD Json.null).getInt?
+    let r0 : Glue.Res := if (st[0]?.getD Json.null) == Json.str "ok" then .ok v else .error v
+    let oa ← it.getObjValAs? (Array Json) "ops"
+    let ops ← oa.toList.mapM fun o => do
+      let a ← o.getArr?
+      let name ← (a[0]?.getD Json.null).getStr?
+      let x ← (a[1]?.getD (Json.num 0)).getInt?
+      let y ← (a[2]?.getD (Json.num 0)).getInt?
+      match name with
+      | "map" => pure (Glue.Op.map x)
+      | "map_err" => pure (Glue.Op.mapErr x)
+      | "and_then" => pure (Glue.Op.andThen x y)
+      | "or_else" => pure (Glue.Op.orElse x y)
+      | "catch_attempt" => pure (Glue.Op.catchAttempt x)
+      | _ => throw s!"bad glue op {name}"
+    match Glue.run r0 ops with
+    | .ok v => pure (Json.arr #["ok", Json.num ⟨v, 0⟩])
+    | .error e => pure (Json.arr #["err", Json.num ⟨e, 0⟩])
+  return Json.mkObj [("items", Json.arr outs)]
+
 def dispatch (j : Json) : Except String Json := do
   let op ← j.getObjValAs? String "op"
   match op with
@@ -476,6 +501,7 @@ def dispatch (j : Json) : Except String Json := do
   | "frame" => opFrame j
   | "render" => opRender j
   | "rpc" => opRpc j
+  | "glue" => opGlue j
   | "utf8" => do
     -- which byte strings are texts: `utf8Valid` on each of the given byte lists
     let items ← j.getObjValAs? (Array Json) "items"
